@@ -1,9 +1,12 @@
 import Logrange.Proofs.Date
 import Logrange.Proofs.DateRoundTrip
 import Logrange.Proofs.DateLineParser
+import Logrange.Proofs.DateLineSkip
+import Logrange.Proofs.DateFloat
 import Logrange.Generated.C20
 import Logrange.Props.C20Formats
 import Logrange.Props.C20Findings
+import Logrange.Props.C20Line
 /-!
 # C20 — Timestamp text is parsed to the instant it denotes, for every supported format
 
@@ -62,7 +65,7 @@ structure FloatContract where
   /-- nanoseconds subtracted from now for the number text `num` and the unit's nanoseconds; `none` = ParseFloat fails -/
   dur : Bytes → Nat → Option Int
   /-- exact on small integers: the product is below 2^53, so every step is exact -/
-  exact_small : ∀ (n mult : Nat), n * mult < 9007199254740992 → dur (natDecimal n) mult = some ((n * mult : Nat) : Int)
+  exact_small : ∀ (n mult : Nat), 0 < mult → n * mult < 9007199254740992 → dur (natDecimal n) mult = some ((n * mult : Nat) : Int)
   /-- monotone: a numerically larger text and/or a larger unit never gives a smaller duration (rounding is monotone) -/
   mono : ∀ (a b ma mb : Nat) (da db : Int), a ≤ b → ma ≤ mb → dur (natDecimal a) ma = some da → dur (natDecimal b) mb = some db → da ≤ db
   /-- non-negative numbers give non-negative durations -/
@@ -138,11 +141,119 @@ theorem relative_exact_small (C : FloatContract) (nowNs : Int) (now : Now) (a : 
     (hu : u = 109 ∨ u = 104 ∨ u = 100) (hs : a * unitNanos u < 9007199254740992) :
     relInstant C nowNs (parseLql gcfg lqlFmts now (relText a u)) = some (nowNs - ((a * unitNanos u : Nat) : Int)) := by
   obtain ⟨e, he⟩ := relText_shape a u hu now
-  rw [he]; simp [relInstant, C.exact_small a _ hs]
+  have hpos : 0 < unitNanos u := by unfold unitNanos; split <;> (try split) <;> omega
+  rw [he]; simp [relInstant, C.exact_small a _ hpos hs]
 
 /-- non-vacuity: `-90m` has the relative shape with number text `90` -/
 example : ∃ e, parseLql gcfg lqlFmts ⟨2026, 9, 26⟩ [45, 57, 48, 109] = .rel 109 [57, 48] e :=
   relText_shape 90 109 (Or.inl rfl) _
+
+/-! ## Relative literals on an IEEE-754 model — no contract
+
+`Model/DateFloat.lean` models `time.Duration(strconv.ParseFloat(num, 64) * float64(unit))` for decimal texts `digits[.digits]` over
+`Nat`: the correctly rounded parse (round-half-even to 53 bits, subnormals, overflow = `ParseFloat`'s range error), the correctly rounded
+product with the exactly representable unit, truncation to `int64`, and the amd64 result of an out-of-range conversion (`MinInt64`,
+whose negation is itself: 2⁶³ ns are subtracted). `Proofs/DateFloat.lean` proves rounding monotone (`rne_mono`, `f64Round_mono`), exact
+below 2⁵³ (`f64Round_exact`), and the three laws of the contract — so the contract is INHABITED by the model (`ieeeContract`) and the
+theorems above hold without a hypothesis (`…_ieee`), and for decimal fractions too (`…_decimal`). The model is compared with the real
+functions on boundary values in every run (harness section `floatmodel`). -/
+
+/-- the IEEE model satisfies the contract -/
+def ieeeContract : FloatContract where
+  dur := fun num mult => relDur amd64Ovf num mult
+  exact_small := fun n mult hm h => relDur_exact_small amd64Ovf n mult hm h
+  mono := fun a b ma mb da db hab hm ha hb => relDur_mono_nat amd64Ovf (by decide) a b ma mb hab hm da db ha hb
+  nonneg := fun a m d h => relDur_nonneg amd64Ovf (natDecimal a) m d h
+
+/-- **Relative literals are monotone** — on the IEEE model, no float hypothesis -/
+theorem relative_monotone_ieee (nowNs : Int) (now : Now) (a b : Nat) (ua ub : UInt8)
+    (hua : ua = 109 ∨ ua = 104 ∨ ua = 100) (hub : ub = 109 ∨ ub = 104 ∨ ub = 100)
+    (hab : a ≤ b) (hu : unitNanos ua ≤ unitNanos ub) (ta tb : Int)
+    (ha : relInstant ieeeContract nowNs (parseLql gcfg lqlFmts now (relText a ua)) = some ta)
+    (hb : relInstant ieeeContract nowNs (parseLql gcfg lqlFmts now (relText b ub)) = some tb) : tb ≤ ta :=
+  relative_monotone ieeeContract nowNs now a b ua ub hua hub hab hu ta tb ha hb
+
+/-- **Relative literals are not later than now** — on the IEEE model -/
+theorem relative_not_future_ieee (nowNs : Int) (now : Now) (a : Nat) (u : UInt8)
+    (hu : u = 109 ∨ u = 104 ∨ u = 100) (t : Int)
+    (h : relInstant ieeeContract nowNs (parseLql gcfg lqlFmts now (relText a u)) = some t) : t ≤ nowNs :=
+  relative_not_future ieeeContract nowNs now a u hu t h
+
+/-- **Exact on small integers** — on the IEEE model: `-<n><unit>` with n·unit < 2⁵³ ns (104 days) is exactly n units before now -/
+theorem relative_exact_small_ieee (nowNs : Int) (now : Now) (a : Nat) (u : UInt8)
+    (hu : u = 109 ∨ u = 104 ∨ u = 100) (hs : a * unitNanos u < 9007199254740992) :
+    relInstant ieeeContract nowNs (parseLql gcfg lqlFmts now (relText a u)) = some (nowNs - ((a * unitNanos u : Nat) : Int)) :=
+  relative_exact_small ieeeContract nowNs now a u hu hs
+
+/-- non-vacuity (evaluation): `-90m` is 5 400 000 000 000 ns before now; `-0.1m` is exactly 6 s; `-106752d` is beyond the int64 horizon and
+saturates at 2⁶³ ns (≈ 292 years before now, not after it); a 310-digit number is rejected by `ParseFloat` (range error) -/
+example : relDur amd64Ovf [57, 48] 60000000000 = some 5400000000000 ∧ relDur amd64Ovf [48, 46, 49] 60000000000 = some 6000000000 ∧
+    relDur amd64Ovf [49, 48, 54, 55, 53, 50] 86400000000000 = some 9223372036854775808 ∧
+    relDur amd64Ovf (List.replicate 310 57) 60000000000 = none := by decide +kernel
+
+/-- the relative literal `-<s><unit>` for any number text -/
+def relTextS (s : Bytes) (u : UInt8) : Bytes := 45 :: (s ++ [u])
+
+/-- a number text of digits and dots reaches `ParseFloat` as written -/
+theorem relTextS_shape (s : Bytes) (hs : ∀ c ∈ s, isDig c = true ∨ c = 46) (u : UInt8) (hu : u = 109 ∨ u = 104 ∨ u = 100) (now : Now) :
+    ∃ e, parseLql gcfg lqlFmts now (relTextS s u) = .rel u s e := by
+  have hb : ∀ c ∈ relTextS s u, c ≠ 32 ∧ isUpperB c = false := by
+    intro c hc
+    simp only [relTextS, List.mem_cons, List.mem_append] at hc
+    rcases hc with e | e | e | e
+    · subst e; decide
+    · rcases hs c e with hd | hd
+      · exact ⟨(sdByte_facts (Or.inl hd)).1, (sdByte_facts (Or.inl hd)).2.1⟩
+      · subst hd; decide
+    · subst e; rcases hu with h | h | h <;> subst h <;> decide
+    · cases e
+  have htrim : trimBlanks (relTextS s u) = relTextS s u := trimBlanks_id (fun c hc => (hb c hc).1)
+  have hlow : toLowerAscii (relTextS s u) = relTextS s u := toLowerAscii_id (fun c hc => (hb c hc).2)
+  have hdt : (if gcfg.lower then toLowerAscii (if gcfg.trim then trimBlanks (relTextS s u) else relTextS s u)
+      else (if gcfg.trim then trimBlanks (relTextS s u) else relTextS s u)) = relTextS s u := by
+    cases gcfg.lower <;> cases gcfg.trim <;> simp [htrim, hlow]
+  have hlast : (relTextS s u).getLast? = some u := by
+    show (45 :: (s ++ [u])).getLast? = some u
+    rw [← List.cons_append, List.getLast?_append]; simp
+  have hlen : ((relTextS s u).drop 1).take ((relTextS s u).length - 2) = s := by
+    simp [relTextS]
+  have hsh : relativeShape (relTextS s u) = some (u, s) := by
+    simp only [relativeShape, hlast, hlen]
+    simp only [relTextS]
+    rcases hu with h | h | h <;> subst h <;> simp
+  simp only [parseLql, hdt, hsh]
+  exact ⟨_, rfl⟩
+
+/-- **Relative literals with decimal fractions are monotone** (IEEE model): `-<a>(m|h|d)` and `-<b>(m|h|d)` with the number texts
+`digits[.digits]` of values a ≤ b (as rationals: `na/da ≤ nb/db`) and the unit of b not smaller — b denotes an earlier-or-equal instant -/
+theorem relative_monotone_decimal (nowNs : Int) (now : Now) (sa sb : Bytes) (hsa : ∀ c ∈ sa, isDig c = true ∨ c = 46)
+    (hsb : ∀ c ∈ sb, isDig c = true ∨ c = 46) (na da nb db : Nat) (hva : decValue sa = some (na, da)) (hvb : decValue sb = some (nb, db))
+    (hle : na * db ≤ nb * da) (ua ub : UInt8) (hua : ua = 109 ∨ ua = 104 ∨ ua = 100) (hub : ub = 109 ∨ ub = 104 ∨ ub = 100)
+    (hu : unitNanos ua ≤ unitNanos ub) (ta tb : Int)
+    (ha : relInstant ieeeContract nowNs (parseLql gcfg lqlFmts now (relTextS sa ua)) = some ta)
+    (hb : relInstant ieeeContract nowNs (parseLql gcfg lqlFmts now (relTextS sb ub)) = some tb) : tb ≤ ta := by
+  obtain ⟨ea, hea⟩ := relTextS_shape sa hsa ua hua now
+  obtain ⟨eb, heb⟩ := relTextS_shape sb hsb ub hub now
+  rw [hea] at ha; rw [heb] at hb
+  simp only [relInstant, Option.map_eq_some_iff] at ha hb
+  obtain ⟨ra, hra, rfl⟩ := ha
+  obtain ⟨rb, hrb, rfl⟩ := hb
+  have := relDur_mono amd64Ovf (by decide) sa sb na da nb db _ _ hva hvb hle hu ra rb hra hrb
+  omega
+
+/-- **…and not later than now, and never more than 2⁶³ ns before it** (IEEE model, any number text of digits and dots) -/
+theorem relative_not_future_decimal (nowNs : Int) (now : Now) (s : Bytes) (hs : ∀ c ∈ s, isDig c = true ∨ c = 46) (u : UInt8)
+    (hu : u = 109 ∨ u = 104 ∨ u = 100) (t : Int)
+    (h : relInstant ieeeContract nowNs (parseLql gcfg lqlFmts now (relTextS s u)) = some t) :
+    t ≤ nowNs ∧ nowNs - 9223372036854775808 ≤ t := by
+  obtain ⟨e, he⟩ := relTextS_shape s hs u hu now
+  rw [he] at h
+  simp only [relInstant, Option.map_eq_some_iff] at h
+  obtain ⟨r, hr, rfl⟩ := h
+  have h1 := relDur_nonneg amd64Ovf s _ r hr
+  have h2 := relDur_le_ovf amd64Ovf (by decide) s _ r hr
+  have h3 : ((amd64Ovf : Nat) : Int) = 9223372036854775808 := by decide
+  omega
 
 /-! ## Format round trip on civil fields -/
 
@@ -204,6 +315,87 @@ detection again, because the undated line made the parser forget the format) -/
 example : lpRun lpcfg (LP.init lpcfg) ([[50, 48, 49, 57, 45, 48, 51, 45, 49, 49, 32, 49, 51, 58, 49, 52, 58, 49, 53, 32, 99, 111, 109, 46, 97, 99, 109, 101, 46, 83, 101, 114, 118, 101, 114, 32, 104, 97, 110, 100, 108, 101, 10], [73, 78, 70, 79, 58, 32, 114, 101, 113, 117, 101, 115, 116, 32, 104, 97, 110, 100, 108, 101, 100, 10], [50, 48, 49, 57, 45, 48, 51, 45, 49, 49, 32, 49, 51, 58, 50, 49, 58, 49, 54, 32, 99, 111, 109, 46, 97, 99, 109, 101, 46, 83, 101, 114, 118, 101, 114, 32, 104, 97, 110, 100, 108, 101, 10]].map (lineAns gadj colFmts now0)) =
     [.dated 49 ⟨2019, 3, 11, 13, 14, 15, 0, .dflt⟩, .carried (some ⟨2019, 3, 11, 13, 14, 15, 0, .dflt⟩),
      .dated 49 ⟨2019, 3, 11, 13, 21, 16, 0, .dflt⟩] := by decide +kernel
+
+/-! ## At and beyond the skip threshold (`maxFailCnt` undated lines in a row): what the property demands, what the code does
+
+The property has no exemption: a line that starts with a timestamp must get its own date. The parser delivers that **exactly when
+it is not in state `skipping`** — `collector_dated_unless_skipping` (any counters, any history) against
+`collector_skip_window_loses_every_header` (inside a skip window NO line is dated, whatever it starts with); a window ends after
+`maxSkip − cnt` lines and is at most `skipBound` = 200 lines long (`collector_skip_window_ends`). So the line clause of the
+property, stated without the threshold (`collector_headers_dated_full`), is FALSE on the current code
+(`collector_headers_dated_full_fails`, open finding F68 — the documented CPU guard), and true below the threshold
+(`collector_headers_dated`). -/
+
+/-- **whenever the line parser is not skipping, a line the default parser dates gets its own date** — after any history, at the
+threshold too (the 10th undated line switches the state; a dated line after 9 undated ones is still read) -/
+theorem collector_dated_unless_skipping (now : Now) (lp : LP) (line : Bytes) (hpar : lp.skipping = false)
+    (hd : (lineAns gadj colFmts now line).findable = true) :
+    (lpStepA lpcfg lp (lineAns gadj colFmts now line)).2.isDated = true :=
+  lp_parsing_dates lpcfg lp _ hpar hd
+
+theorem lp_first_skip_positive : 0 < lpcfg.maxSkip0 := by decide
+
+/-- **inside a skip window no line gets its own date**: after any file prefix that left the parser in `skipping`, the next line's
+record carries the stale `lastDate`, whatever the line starts with -/
+theorem collector_skip_window_loses_every_header (now : Now) (pre : List Bytes) (line : Bytes)
+    (hsk : (lpState lpcfg (LP.init lpcfg) (pre.map (lineAns gadj colFmts now))).skipping = true) :
+    (lpStepA lpcfg (lpState lpcfg (LP.init lpcfg) (pre.map (lineAns gadj colFmts now))) (lineAns gadj colFmts now line)).2 =
+      .carried (lpState lpcfg (LP.init lpcfg) (pre.map (lineAns gadj colFmts now))).last :=
+  lp_skipping_carries lpcfg _ _ (lpWf_run lpcfg _ _ (lpWf_init lpcfg lp_first_skip_positive)) hsk
+
+/-- **a skip window ends and is bounded**: from any reachable state in `skipping`, after exactly `maxSkip − cnt` further lines —
+whatever they are — the parser reads lines again; that is never more than 200 lines (10, 20, 40, 80, 160 on the current constants) -/
+theorem collector_skip_window_ends (now : Now) (pre rest : List Bytes)
+    (hsk : (lpState lpcfg (LP.init lpcfg) (pre.map (lineAns gadj colFmts now))).skipping = true)
+    (hlen : rest.length = (lpState lpcfg (LP.init lpcfg) (pre.map (lineAns gadj colFmts now))).maxSkip -
+      (lpState lpcfg (LP.init lpcfg) (pre.map (lineAns gadj colFmts now))).cnt) :
+    (lpState lpcfg (lpState lpcfg (LP.init lpcfg) (pre.map (lineAns gadj colFmts now))) (rest.map (lineAns gadj colFmts now))).skipping = false ∧
+    rest.length ≤ 200 := by
+  have hwf := lpWf_run lpcfg (pre.map (lineAns gadj colFmts now)) _ (lpWf_init lpcfg lp_first_skip_positive)
+  refine ⟨lp_skip_window_ends lpcfg _ _ hwf hsk rfl _ (by simpa using hlen), ?_⟩
+  have hb := lp_skip_window_bounded lpcfg _ hwf
+  have h200 : skipBound lpcfg = 200 := by decide
+  omega
+
+/-- the line clause of the property without the threshold: every line of every file that starts with a timestamp gets its own date -/
+def collector_headers_dated_full : Prop :=
+  ∀ (now : Now) (lines : List Bytes), consistent (lines.map (lineAns gadj colFmts now)) →
+    headersDated (lines.map (lineAns gadj colFmts now)) (lpRun lpcfg (LP.init lpcfg) (lines.map (lineAns gadj colFmts now))) = true
+
+def f68Header1 : Bytes := [50, 48, 49, 57, 45, 48, 49, 45, 48, 50, 32, 48, 51, 58, 48, 52, 58, 48, 53, 32, 97, 10]
+def f68Undated : Bytes := [73, 78, 70, 79, 58, 32, 120, 10]
+def f68Header2 : Bytes := [50, 48, 49, 57, 45, 48, 49, 45, 48, 50, 32, 48, 51, 58, 48, 57, 58, 48, 48, 32, 122, 10]
+def f68File : List Bytes := [f68Header1] ++ List.replicate 10 f68Undated ++ [f68Header2]
+
+theorem f68_facts :
+    (lineAns gadj colFmts now0 f68Header1).findable = true ∧ (lineAns gadj colFmts now0 f68Header2).findable = true ∧
+    (List.range colFmts.length).all (fun i => ((lineAns gadj colFmts now0 f68Undated).fast i).isNone) = true ∧
+    headersDated (f68File.map (lineAns gadj colFmts now0)) (lpRun lpcfg (LP.init lpcfg) (f68File.map (lineAns gadj colFmts now0))) = false := by
+  decide +kernel
+
+/-- **the line clause without the threshold is false on the current code** (open finding F68): a time-stamped line, ten undated
+lines, a time-stamped line — the last line is not read -/
+theorem collector_headers_dated_full_fails : ¬ collector_headers_dated_full := by
+  intro h
+  obtain ⟨h1, h2, hu, hfalse⟩ := f68_facts
+  have hcons : consistent (f68File.map (lineAns gadj colFmts now0)) := by
+    intro a ha i c hfast
+    simp only [f68File, List.map_append, List.map_cons, List.map_nil, List.map_replicate, List.mem_append, List.mem_cons,
+      List.mem_replicate, List.not_mem_nil, or_false] at ha
+    rcases ha with (ha | ha) | ha
+    · subst ha; exact h1
+    · obtain ⟨_, ha⟩ := ha
+      subst ha
+      exfalso
+      by_cases hi : i < colFmts.length
+      · have := List.all_eq_true.mp hu i (List.mem_range.mpr hi)
+        rw [hfast] at this; simp at this
+      · have hnone : colFmts[i]? = none := List.getElem?_eq_none (by omega)
+        simp [lineAns, hnone] at hfast
+    · subst ha; exact h2
+  have := h now0 f68File hcons
+  rw [hfalse] at this
+  cases this
 
 /-! ## The full statement (text alone) -/
 
